@@ -168,3 +168,12 @@ package directive
 //@   oncallback requires m.mx == 2
 //@   oncallback keeps m.mx, m.data, m.order
 //@   ensures m.mx == 0
+
+//@ func (Directive).HasUnnamedParameter
+//@   inline
+//@ func (Directive).UnnamedParametersLen
+//@   inline
+//@ func (Directive).UnnamedParameter
+//@   inline
+//@ func (Directive).HasNamedParameter
+//@   inline
